@@ -141,9 +141,21 @@ Definition ret_set (d : dstate) (p : publish) (clk : Z) : dstate * option bevent
 Definition ret_delete (d : dstate) (topic : string) (clk : Z) : dstate * option bevent :=
   let r := RMsg (Publish topic "" 0 false) 0 (ret_stamp d topic clk) in
   (with_ret d (aset topic r (d_ret d)), Some (BEvent [] [] [r])).
+(* topics/node.go match: like MQTT matching, except that a '#' level stands for "everything
+   below" wherever it occurs in the filter (MQTT only allows it last; for such filters the two agree) *)
+Fixpoint gmatch (f t : list string) : bool :=
+  match f with
+  | [] => is_nil t
+  | x :: f' =>
+    if String.eqb x "#" then true
+    else match t with
+         | [] => false
+         | y :: t' => ((String.eqb x "+") || (String.eqb x y)) && gmatch f' t'
+         end
+  end.
 (* Get(pattern): the added messages stored under the topics the filter matches *)
 Definition ret_get (d : dstate) (pattern : string) : list rmsg :=
-  filter ret_added (map snd (filter (fun kv => mmatch (levels pattern) (levels (fst kv))) (d_ret d))).
+  filter ret_added (map snd (filter (fun kv => gmatch (levels pattern) (levels (fst kv))) (d_ret d))).
 
 (** * state.go *)
 Definition merge_event (d : dstate) (e : bevent) : dstate :=
